@@ -169,7 +169,11 @@ def unique_datasets(layers):
 
 def attr_kind(d, c):
     """Kind of an attribute re-derived from its values."""
-    k = np.asarray(d.get_data(c)).dtype.kind
+    try:
+        k = np.asarray(d.get_data(c)).dtype.kind
+    except Exception:
+        # c is not (any more) an attribute of d - e.g. a stale picker entry after an operation that raised
+        return "unknown"
     if k == "M":
         return "datetime"
     if k in "USO":
@@ -514,6 +518,12 @@ def quiescent_check(world, viewer, expected_keys=None, expected_layers=None, sta
                 what.add("duplicate_layer")
             xs = {"what": "+".join(sorted(what))}
             xs.update(born_and_died(world, extra))
+            left = getattr(world, "left_during_block", None)
+            if left and missing and not extra and getattr(world, "subsets_before_block", None) is not None and \
+                    all(is_in(x.data if isinstance(x, Subset) else x, left) for x in missing):
+                # every missing layer belongs to a dataset that left the collection and came back inside the block: its
+                # queued delete message was delivered after it had been given to the viewer again
+                xs["missing_layers_are_of_datasets_removed_and_reappended_inside_the_delay_block"] = True
             out.append(("layers_differ_from_expected", xs,
                         {"layers": [layer_key(x) for x in got], "expected": [layer_key(x) for x in expected_layers]}))
     if expected_keys is not None:
@@ -1327,11 +1337,15 @@ def run_viewer_history(ctx, kind, length):
                 n = rng.randint(2, 3)
                 ctx.count("delay_blocks")
                 world.subsets_before_block = [s_ for d_ in world.pool for s_ in d_.subsets]
+                world.dc_before_block = list(world.dc)
+                world.left_during_block = []
                 cm = world.dc.hub.delay_callbacks()
                 cm.__enter__()
                 try:
                     for _ in range(n):
+                        members = list(world.dc)
                         names.append(apply_op(ctx, world, rng, trace))
+                        world.left_during_block += [d_ for d_ in members if not is_in(d_, list(world.dc))]
                 finally:
                     try:
                         cm.__exit__(None, None, None)
@@ -1350,12 +1364,22 @@ def run_viewer_history(ctx, kind, length):
                 name = apply_op(ctx, world, rng, trace)
                 step += 1
             world.prune()
+            if in_block:
+                # a subset created inside the block whose layer was removed explicitly inside the block: its create message
+                # was still queued and is delivered when the block closes, so the viewer may legitimately show it again
+                # (with immediate delivery the removal would have come after the create). The model follows the viewer.
+                born = [x for x in world.hidden if not is_in(x, world.subsets_before_block or [])]
+                for x in born:
+                    if any(a.layer is x for a in world.viewer.layers):
+                        world.hidden = [h_ for h_ in world.hidden if h_ is not x]
+                        ctx.count("hidden_subset_reshown_by_create_message_delivered_after_the_removal")
             if not in_block:
                 world.subsets_before_block = None
+                world.left_during_block = None
             res = quiescent_check(world, world.viewer, expected_layers=world.expected_layers())
             problems = report_viewer(ctx, world, name, prev, trace, res)
             prev = name
-            if not problems and step in save_at:
+            if not problems and step in save_at and not world.out_of_domain:
                 problems = save_restore(ctx, world, trace)
                 n_restore += 1
     finally:
